@@ -29,6 +29,14 @@ TRUSTED_BASE = [
 ]
 
 
+class ImplPanic(Exception):
+    """the implementation panicked inside the harness, outside a catch: (input handed to the compiler last, location, message)"""
+
+    def __init__(self, args_, src, loc, msg):
+        Exception.__init__(self, msg)
+        self.harness_args, self.src, self.loc, self.msg = args_, src, loc, msg
+
+
 class Infra(Exception):
     pass
 
@@ -288,9 +296,22 @@ def harness_build(release=False):
         return os.path.join(TARGET, "release" if release else "debug", "verif-harness")
 
 
+def raise_impl_panic(args, returncode, stderr_bytes):
+    """a panic of the implementation inside the harness, outside a catch (exit code 3): reported with the input the stage
+    handed to the compiler last"""
+    if returncode == 3:
+        for line in stderr_bytes.decode("utf8", "replace").split("\n"):
+            if line.startswith("IMPL-PANIC\t"):
+                f = line.split("\t", 3)
+                raise ImplPanic([str(a) for a in args], dec(f[1]), f[2], f[3] if len(f) > 3 else "")
+
+
 def harness_run(args, release=False, timeout=3000, input_bytes=None, check=True):
     exe = harness_build(release)
-    p = sh([exe] + [str(a) for a in args], timeout=timeout, input_bytes=input_bytes, check=check)
+    p = sh([exe] + [str(a) for a in args], timeout=timeout, input_bytes=input_bytes, check=False)
+    raise_impl_panic(args, p.returncode, p.stderr)
+    if check and p.returncode != 0:
+        raise Infra("harness %s failed: %s" % (args, p.stderr.decode("utf8", "replace")[-4000:]))
     return p
 
 
@@ -425,6 +446,7 @@ def bulk_compare(harness_args, tag, shards=12, release=False, max_report=20, eq=
     with open(cases, "wb") as f:
         p = subprocess.run([exe] + [str(a) for a in harness_args], stdout=f, stderr=subprocess.PIPE, timeout=3000)
     if p.returncode != 0:
+        raise_impl_panic(harness_args, p.returncode, p.stderr)
         raise Infra("harness %s failed: %s" % (harness_args, p.stderr.decode("utf8", "replace")[-2000:]))
     # split into shards, then into cmd / impl columns
     sh("split -n l/%d -d -a 3 cases.tsv shard_" % shards, cwd=wd)
